@@ -260,18 +260,22 @@ func (r *RPCExecuteProgramRequest) EncodeTo(e *types.Encoder) {
 // DecodeFrom implements ProtocolObject.
 func (r *RPCExecuteProgramRequest) DecodeFrom(d *types.Decoder) {
 	r.FileContractID.DecodeFrom(d)
-	r.Program = make([]Instruction, d.ReadUint64())
-	for i := range r.Program {
+	// NOTE: the instruction count is untrusted, so the slice is grown as
+	// instructions are actually decoded rather than allocated up front
+	n := d.ReadUint64()
+	r.Program = make([]Instruction, 0)
+	for i := uint64(0); i < n; i++ {
 		var id types.Specifier
 		id.DecodeFrom(d)
-		r.Program[i] = instructionForID(id, d.ReadUint64())
-		if r.Program[i] == nil {
+		instr := instructionForID(id, d.ReadUint64())
+		if instr == nil {
 			d.SetErr(fmt.Errorf("unrecognized instruction id: %q", id))
 			return
 		}
-		if r.Program[i].DecodeFrom(d); d.Err() != nil {
+		if instr.DecodeFrom(d); d.Err() != nil {
 			return
 		}
+		r.Program = append(r.Program, instr)
 	}
 	r.ProgramData = d.ReadBytes()
 }
@@ -305,8 +309,29 @@ func (r *RPCExecuteProgramResponse) DecodeFrom(d *types.Decoder) {
 	}
 	(*types.V1Currency)(&r.TotalCost).DecodeFrom(d)
 	(*types.V1Currency)(&r.FailureRefund).DecodeFrom(d)
-	r.Output = make([]byte, r.OutputLength)
-	d.Read(r.Output)
+	r.Output = readN(d, make([]byte, 0), r.OutputLength)
+}
+
+// readN reads n bytes from d into buf, reusing buf's capacity when it suffices
+// and otherwise growing it only as data actually arrives, so that an untrusted
+// length cannot trigger a huge allocation.
+func readN(d *types.Decoder, buf []byte, n uint64) []byte {
+	if n <= uint64(cap(buf)) {
+		buf = buf[:n]
+		d.Read(buf)
+		return buf
+	}
+	buf = buf[:0]
+	var chunk [1 << 14]byte
+	for n > 0 {
+		c := chunk[:min(n, uint64(len(chunk)))]
+		if _, err := d.Read(c); err != nil {
+			break
+		}
+		buf = append(buf, c...)
+		n -= uint64(len(c))
+	}
+	return buf
 }
 
 // EncodeTo implements ProtocolObject.
